@@ -7,6 +7,7 @@ open GlueVerif.C18
 #print axioms viewer_mirrors_collection
 #print axioms viewer_layers_plain
 #print axioms restore_layers
+#print axioms viewer_refusing_spec
 #print axioms refresh_sound_complete
 #print axioms kind_filter_whitelist
 #print axioms unfiltered_kind_never_offered
